@@ -29,12 +29,18 @@ def main():
     ap.add_argument('prop')
     ap.add_argument('--tier', default=os.environ.get('VERIF_TIER', 'quick'), choices=['quick', 'thorough'])
     ap.add_argument('--only', default=None, help='substring filter on condition names (debugging; evidence is partial)')
+    ap.add_argument('--only-part', default=None, help='substring filter on the partition JSON (debugging; evidence is partial)')
     a = ap.parse_args()
     seed = int(os.environ.get('VERIF_SEED', '0') or 0)
     import specs
     spec = specs.spec(a.prop, a.tier, seed)
     if a.only:
         spec['conds'] = [c for c in spec['conds'] if a.only in (getattr(c, 'func', None) or c.name)]
+    if a.only_part:
+        for c in spec['conds']:
+            if hasattr(c, 'parts'):
+                c.parts = [p for p in c.parts if a.only_part in json.dumps(p, sort_keys=True)]
+        spec['conds'] = [c for c in spec['conds'] if not hasattr(c, 'parts') or c.parts]
     return engine.check_property(a.prop, a.tier, spec, seed=seed)
 
 
